@@ -34,6 +34,7 @@ type feedOpts struct {
 	tokenSweepQ          int  // number of generated base documents for the token-level sweep (0 = skip); 14 fixed templates are always included
 	amplify              bool // one small element (every single-gap whitespace variant of 6 templates, and drawn ones) repeated > 10000 times in one container
 	strRuns              bool // strings made of N directly adjacent escapes of one kind (N in 0..140 and round powers of two) + a closer, as value and key
+	counts               int  // count sites x counts round 2^8..2^16 (1) and also round 2^20 (2); 0 = skip
 	numShapes            int  // number tokens over a grid of (integer, fraction, exponent) digit counts; the value is the number of contexts (1..4), 0 = skip
 }
 
@@ -88,6 +89,84 @@ func numShape(buf []byte, li, lf, le, v int) []byte {
 		}
 	}
 	return buf
+}
+
+// countNs / countNsBig are the counts of the `counts` stage.
+var countNs = []int{255, 256, 257, 511, 512, 513, 4095, 4096, 4097, 65535, 65536, 65537}
+var countNsBig = []int{1<<20 - 1, 1 << 20, 1<<20 + 1, 3 << 20}
+
+type countKind struct {
+	name  string
+	heavy bool // many members rather than many bytes of one token: skipped above 2^20+1
+	build func(n int) []byte
+}
+
+func repBytes(b []byte, unit string, n int) []byte {
+	for i := 0; i < n; i++ {
+		b = append(b, unit[i%len(unit)])
+	}
+	return b
+}
+
+func repUnits(b []byte, unit string, n int) []byte {
+	for i := 0; i < n; i++ {
+		b = append(b, unit...)
+	}
+	return b
+}
+
+func countDoc(pre, unit, post string, n int, whole bool) []byte {
+	b := make([]byte, 0, len(pre)+len(post)+n*len(unit)+8)
+	b = append(b, pre...)
+	if whole {
+		b = repUnits(b, unit, n)
+	} else {
+		b = repBytes(b, unit, n)
+	}
+	return append(b, post...)
+}
+
+// countKinds: n counts the repeated thing, everything else is fixed and small.
+var countKinds = []countKind{
+	{"ws-lead-true", false, func(n int) []byte { return countDoc("", " ", "true", n, false) }},
+	{"ws-lead-mixed-array", false, func(n int) []byte { return countDoc("", " \t\r\n", "[1]", n, false) }},
+	{"ws-lead-string", false, func(n int) []byte { return countDoc("", "\n", `"s" `, n, false) }},
+	{"ws-lead-number", false, func(n int) []byte { return countDoc("", " ", "-12.5e1,", n, false) }},
+	{"ws-lead-null-object", false, func(n int) []byte { return countDoc("", "\r\n", `null`, n, false) }},
+	{"ws-lead-eof", false, func(n int) []byte { return countDoc("", " \n", "", n, false) }},
+	{"ws-lead-bad", false, func(n int) []byte { return countDoc("", " ", "\x0b1", n, false) }},
+	{"ws-after-open", false, func(n int) []byte { return countDoc("[", " ", "1]", n, false) }},
+	{"ws-before-comma", false, func(n int) []byte { return countDoc("[1", " \n", ",2]", n, false) }},
+	{"ws-after-comma", false, func(n int) []byte { return countDoc(`{"a":1,`, "\t", `"b":2}`, n, false) }},
+	{"ws-before-colon", false, func(n int) []byte { return countDoc(`{"a"`, " ", `:1}`, n, false) }},
+	{"ws-after-colon", false, func(n int) []byte { return countDoc(`{"a":`, " \r", `[2]}`, n, false) }},
+	{"ws-before-close", false, func(n int) []byte { return countDoc(`[{"a":"b"`, "\n", `}]`, n, false) }},
+	{"ws-trailing", false, func(n int) []byte { return countDoc(`[1]`, " ", ``, n, false) }},
+	{"ws-trailing-then-value", false, func(n int) []byte { return countDoc(`"x"`, " \n", `2`, n, false) }},
+	{"int-digits", false, func(n int) []byte { return countDoc("1", "0123456789", "", n-1, false) }},
+	{"int-digits-in-array", false, func(n int) []byte { return countDoc("[-7", "7", ",1]", n-1, false) }},
+	{"frac-digits", false, func(n int) []byte { return countDoc("1.", "0123456789", "", n, false) }},
+	{"frac-digits-in-object", false, func(n int) []byte { return countDoc(`{"k":0.`, "0", `1}`, n-1, false) }},
+	{"frac-digits-then-exp", false, func(n int) []byte { return countDoc("[2.", "5", "e-3]", n, false) }},
+	{"exp-digits", false, func(n int) []byte { return countDoc("1e", "0", "7", n-1, false) }},
+	{"exp-digits-signed-in-array", false, func(n int) []byte { return countDoc("[1.5E-", "0", "2 ]", n-1, false) }},
+	{"exp-digits-plus-fraction", false, func(n int) []byte { return countDoc(`{"a":3.25e+`, "0", "1}", n-1, false) }},
+	{"string-plain", false, func(n int) []byte { return countDoc(`"`, "a", `"`, n, false) }},
+	{"string-plain-in-array", false, func(n int) []byte { return countDoc(`["`, "abcdefg ", `",1]`, n, false) }},
+	{"string-escapes", false, func(n int) []byte { return countDoc(`"`, `\n`, `"`, n, true) }},
+	{"string-unicode-escapes", false, func(n int) []byte { return countDoc(`["`, `\u00e9`, `"]`, n, true) }},
+	{"string-pairs", false, func(n int) []byte { return countDoc(`"`, `\ud83d\ude00`, `"`, n, true) }},
+	{"string-multibyte", false, func(n int) []byte { return countDoc(`"`, "é", `"`, n, true) }},
+	{"string-plain-then-escape", false, func(n int) []byte { return countDoc(`"`, "b", `\t"`, n, false) }},
+	{"string-escape-then-plain", false, func(n int) []byte { return countDoc(`"\\`, "c", `"`, n, false) }},
+	{"key-plain", false, func(n int) []byte { return countDoc(`{"`, "k", `":1}`, n, false) }},
+	{"key-escaped", false, func(n int) []byte { return countDoc(`{"a":0,"\"`, "q", `":[true]}`, n, false) }},
+	{"array-members", true, func(n int) []byte { return countDoc(`[1`, ",1", `]`, n-1, true) }},
+	{"array-string-members", true, func(n int) []byte { return countDoc(`[""`, `,"x"`, `]`, n-1, true) }},
+	{"array-container-members", true, func(n int) []byte { return countDoc(`[[]`, `,{}`, `]`, n-1, true) }},
+	{"object-members", true, func(n int) []byte { return countDoc(`{"a":1`, `,"b":2`, `}`, n-1, true) }},
+	{"object-members-nested", true, func(n int) []byte { return countDoc(`[{"a":null`, `,"":[0]`, `},2]`, n-1, true) }},
+	{"values-behind", true, func(n int) []byte { return countDoc(`[]`, ` 1`, ``, n, true) }},
 }
 
 var defaultNestDepths = []int{1, 2, 3, 5, 17, 64, 9998, 9999, 10000, 10001, 10002, 20000}
@@ -441,6 +520,38 @@ func (e *env) feed(o feedOpts, f inputFn) {
 							break shapes
 						}
 					}
+				}
+			}
+		}
+	}
+
+	// 2b''. counts: every place where a scanner counts something (whitespace bytes, digits of
+	// each part of a number, string bytes, escapes, key bytes, members) with counts on both sides
+	// of 2^8, 2^9, 2^12, 2^16 and (countsBig) 2^20: a counter narrowed to 8 or 16 bits wraps, a
+	// "hardening" limit or a size-class switch sits at such a value
+	if o.counts > 0 && e.enumStage("counts", fmt.Sprintf("%d count sites (whitespace at 8 grammar positions, integer / fraction / exponent digits, plain / escaped / multi-byte string bytes, key bytes, array and object members, trailing whitespace) x counts {255..257, 511..513, 4095..4097, 65535..65537%s}", len(countKinds), map[bool]string{true: ", 2^20-1..2^20+1, 3*2^20 (thorough also 2^24+1)", false: ""}[o.counts > 1]), true) {
+		ns := append([]int(nil), countNs...)
+		if o.counts > 1 {
+			ns = append(ns, countNsBig...)
+			if cfg.Thorough() {
+				ns = append(ns, 1<<24+1)
+			}
+		}
+		idx := 0
+	counts:
+		for _, n := range ns {
+			for _, ck := range countKinds {
+				idx++
+				if !cfg.Mine(idx) {
+					continue
+				}
+				if n > 1<<20+1 && ck.heavy {
+					continue
+				}
+				b := ck.build(n)
+				if err := call("counts."+ck.name, b); err != nil {
+					report("counts."+ck.name, b, err)
+					break counts
 				}
 			}
 		}
